@@ -119,12 +119,37 @@ def check_weights(chk, cases, FL):
         chk.sample({"given": [render_weight(g) for g in given], "loaded": got, "spec": exp}, limit=3)
 
 
+class CountingLock:
+    """controller.comp_lock: the harness only lets the controller act while the monitor does not hold it"""
+
+    def __init__(self):
+        self.depth = 0
+
+    def __enter__(self):
+        self.depth += 1
+        return self
+
+    def __exit__(self, *a):
+        self.depth -= 1
+        return False
+
+    def acquire(self, *a, **k):
+        self.depth += 1
+        return True
+
+    def release(self):
+        self.depth -= 1
+
+
 class StubController:
     """Environment of StatusMonitor.CheckStatus: answers from the model state; get_stage_status is the real one."""
 
     def __init__(self, exp, Controller, codes):
         self.exp = exp
-        self.comp_lock = threading.RLock()
+        self.comp_lock = CountingLock()
+        self.nb = 0              # boundaries (calls into the controller) seen in this CheckStatus
+        self.inject_at = None    # (boundary index, action, arg): the controller action that happens meanwhile
+        self.injected = False
         self._Controller = Controller
         self.codes = codes
         self.log = __import__("logging").getLogger("stub")
@@ -134,7 +159,27 @@ class StubController:
         self.st, self.prog = st, prog
         self._stageStates = {i: None for i, s in enumerate(st) if s != "pending"}
 
+    def apply(self, act, arg):
+        i = arg - 1
+        st, prog = list(self.st), list(self.prog)
+        if act == "Advance":
+            prog[i] += 1
+        elif act == "Finish":
+            st[i] = "finished"
+        elif act.startswith("NextStage"):
+            st[i] = act[len("NextStage"):]
+            st[i + 1] = "active"
+        self.set_state(st, prog)
+
+    def boundary(self):
+        """called at every call the monitor makes into the controller: the moment another thread may have acted"""
+        self.nb += 1
+        if self.inject_at and not self.injected and self.nb >= self.inject_at[0] and self.comp_lock.depth == 0:
+            self.injected = True
+            self.apply(self.inject_at[1], self.inject_at[2])
+
     def stage(self):
+        self.boundary()
         act = [i for i, s in enumerate(self.st) if s == "active"]
         if act:
             return self.exp._stages[act[0]]
@@ -142,12 +187,15 @@ class StubController:
         return self.exp._stages[len(self.st) - 1]
 
     def stageState(self, stage):
+        self.boundary()
         return self.codes.RUNNING_STATE
 
     def get_stages_in_transit(self):
+        self.boundary()
         return [i for i, s in enumerate(self.st) if s in ("transit", "active")]
 
     def get_stages_finished(self):
+        self.boundary()
         return [i for i, s in enumerate(self.st) if s == "finished"]
 
     def get_components_in_stage(self, idx):
@@ -156,6 +204,7 @@ class StubController:
         return [types.SimpleNamespace(state=fin if k < done else oth) for k in range(4)]
 
     def get_stage_status(self, idx):
+        self.boundary()
         return self._Controller.get_stage_status(self, idx)
 
     def generate_status_report_for_nodes(self, _):
@@ -216,6 +265,72 @@ def check_progress(chk, states, scratch):
         experiment.runtime.monitor.CreateMonitor = orig
 
 
+def check_interleavings(chk, reports, scratch):
+    """spec -> code: CheckStatus runs concurrently with the controller.  For every state in which a check may begin
+    and every controller action that may happen meanwhile, at every point where the monitor calls into the controller
+    without holding its lock, the value the REAL CheckStatus writes must be one the specification allows for that
+    (state, action): the in-transit / finished snapshot is atomic, so no stage is counted twice."""
+    from .. import realenv
+    import experiment.runtime.output as output
+    import experiment.runtime.monitor
+    import experiment.runtime.control as control
+    import experiment.model.codes as codes
+    import shutil
+    allowed = {}
+    for r in reports:
+        key = (r["n"], tuple(r["given"]), tuple(r["st0"]), tuple(r["prog0"]))
+        allowed.setdefault(key, {}).setdefault((r["act"], r["arg"]), set()).add(r["reported"])
+    groups = {}
+    for key in allowed:
+        groups.setdefault(key[:2], []).append(key)
+    captured = {}
+
+    def fake_create_monitor(interval, fn, cancelEvent=None, name=None, **kw):
+        captured["fn"] = fn
+        return lambda: None
+    orig = experiment.runtime.monitor.CreateMonitor
+    experiment.runtime.monitor.CreateMonitor = fake_create_monitor
+    runs = 0
+    try:
+        for (n, given), keys in sorted(groups.items()):
+            exp = realenv.experiment_from_flowir(flowir_for(n, list(given)), scratch)
+            mon = output.StatusMonitor(exp, report_components=False)
+            ctrl = StubController(exp, control.Controller, codes)
+            mon.run(ctrl)
+            fn = captured["fn"]
+            for key in sorted(keys):
+                st0, prog0 = list(key[2]), list(key[3])
+                # dry run: how many calls into the controller does one CheckStatus make from this state?
+                ctrl.set_state(st0, prog0); ctrl.nb = 0; ctrl.inject_at = None; ctrl.injected = False
+                fn(False)
+                nb = ctrl.nb
+                base = int(round(float(exp.statusFile.totalProgress()) * 4 * UNIT))
+                if base not in allowed[key].get(("none", 0), set()):
+                    chk.violation("interleaving:quiet-check-differs", "n=%d weights=%s state=%s prog=%s: CheckStatus reports %d/40000, specification %s" % (
+                        n, list(given), st0, prog0, base, sorted(allowed[key].get(("none", 0), []))), {"kind": "inter", "key": key})
+                for (act, arg), vals in sorted(allowed[key].items()):
+                    if act == "none":
+                        continue
+                    ok_vals = vals | allowed[key].get(("none", 0), set())
+                    for b in range(2, nb + 2):
+                        ctrl.set_state(st0, prog0); ctrl.nb = 0; ctrl.inject_at = (b, act, arg); ctrl.injected = False
+                        fn(False)
+                        runs += 1
+                        got = int(round(float(exp.statusFile.totalProgress()) * 4 * UNIT))
+                        chk.evaluated(("i", key, act, arg, b))
+                        if got not in ok_vals or got > 4 * UNIT or got < 0:
+                            chk.violation("interleaving:stage-counted-inconsistently", "n=%d weights=%s: check begins in state=%s prog=%s, the controller does %s(%d) "
+                                          "at the monitor's call #%d: CheckStatus reports %.4f, the specification allows %s" % (
+                                              n, list(given), st0, prog0, act, arg, b, got / (4 * UNIT), sorted(v / (4 * UNIT) for v in ok_vals)),
+                                          {"kind": "inter", "n": n, "given": list(given), "st0": st0, "prog0": prog0, "act": act, "arg": arg, "b": b})
+            chk.trace_validated(1)
+            shutil.rmtree(exp.instanceDirectory.location, ignore_errors=True)
+    finally:
+        experiment.runtime.monitor.CreateMonitor = orig
+    chk.cov["monitor_interleavings_executed"] = runs
+    chk.sample({"interleaving_case": {"n": n, "given": list(given), "begin_state": st0, "action": [act, arg], "allowed": sorted(ok_vals)}}, limit=6)
+
+
 def run(tier):
     chk = Check(PID, tier)
     gen = os.path.join(SPEC, "gen")
@@ -223,18 +338,18 @@ def run(tier):
     thorough = tier == "thorough"
     ms = 4 if thorough else 3
     grid = GRID_Q if not thorough else GRID_Q.replace("GridNeg = {10, 5000}", "GridNeg = {10}")
-    common_w = "CONSTANTS\n  MaxStages = %d\n  %s\n" % (ms, grid)
+    common_w = "CONSTANTS\n  MinStages = 1\n  MaxStages = %d\n  %s\n" % (ms, grid)
     inv = "INVARIANT TypeOK\nINVARIANT WeightsNonNegative\nINVARIANT WeightsSumToOne\nINVARIANT GivenPreserved\n"
     # 1a. Normalise on the weight grid
-    c1 = _cfg(os.path.join(gen, "Progress_weights_%s.cfg" % tier), common_w + "  Emit = FALSE\nINIT Init\nNEXT Load\n" + inv + "CHECK_DEADLOCK FALSE\n")
+    c1 = _cfg(os.path.join(gen, "Progress_weights_%s.cfg" % tier), common_w + "  UseSpecial = TRUE\n  Emit = FALSE\nINIT Init\nNEXT Load\n" + inv + "CHECK_DEADLOCK FALSE\n")
     r = tlc.run_tlc("Progress", c1, timeout=1500)
     if not r["ok"]:
         raise MachineryError("Progress.tla: invariant %s fails on the model:\n%s" % (r["violated"], r["out"][-2000:]))
     chk.add_tlc(r)
-    # 1b. state machine
+    # 1b. progress state machine of the controller alone (no CheckStatus in progress)
     g2 = "GridPos = {0, 2500, 3333, 3334, 5000, 7500, 10000}\n  GridNeg = {}" if not thorough else \
          "GridPos = {0, 10, 2500, 3330, 3333, 3334, 3340, 5000, 7500, 10000}\n  GridNeg = {}"
-    c2 = _cfg(os.path.join(gen, "Progress_mc_%s.cfg" % tier), "CONSTANTS\n  MaxStages = 3\n  %s\n  Emit = FALSE\nSPECIFICATION Spec\n%s"
+    c2 = _cfg(os.path.join(gen, "Progress_mc_%s.cfg" % tier), "CONSTANTS\n  MinStages = 1\n  MaxStages = 3\n  %s\n  UseSpecial = TRUE\n  Emit = FALSE\nSPECIFICATION SpecNoMon\n%s"
               "INVARIANT TotalInRange\nINVARIANT TotalCompleteAtEnd\nPROPERTY Monotone\nCHECK_DEADLOCK FALSE\n" % (g2, inv))
     r = tlc.run_tlc("Progress", c2, timeout=1500, coverage=True)
     if not r["ok"]:
@@ -243,8 +358,19 @@ def run(tier):
         if not r["coverage"].get(act):
             raise MachineryError("action %s of Progress.tla never taken (vacuous run): %s" % (act, r["coverage"]))
     chk.add_tlc(r)
+    # 1c. CheckStatus concurrent with the controller: the reported value stays a proper fraction
+    g3 = "GridPos = {0, 2500, 5000, 7500, 10000}\n  GridNeg = {}"
+    c2b = _cfg(os.path.join(gen, "Progress_mon_%s.cfg" % tier), "CONSTANTS\n  MinStages = 1\n  MaxStages = %d\n  %s\n  UseSpecial = TRUE\n  Emit = FALSE\nSPECIFICATION Spec\n%s"
+               "INVARIANT ReportedInRange\nCHECK_DEADLOCK FALSE\n" % (2, g3 if not thorough else g2, inv))
+    r = tlc.run_tlc("Progress", c2b, timeout=1500, coverage=True)
+    if not r["ok"]:
+        raise MachineryError("Progress.tla: %s fails on the model:\n%s" % (r["violated"], r["out"][-2000:]))
+    for act in ("MonBegin", "MonSnap", "MonSum"):
+        if not r["coverage"].get(act):
+            raise MachineryError("action %s of Progress.tla never taken (vacuous run): %s" % (act, r["coverage"]))
+    chk.add_tlc(r)
     # 2. weights, spec -> code
-    c3 = _cfg(os.path.join(gen, "Progress_emit_%s.cfg" % tier), "CONSTANTS\n  MaxStages = 3\n  %s\n  Emit = TRUE\nINIT Init\nNEXT Load\nINVARIANT EmitCase\nCHECK_DEADLOCK FALSE\n" % GRID_Q)
+    c3 = _cfg(os.path.join(gen, "Progress_emit_%s.cfg" % tier), "CONSTANTS\n  MinStages = 1\n  MaxStages = 3\n  %s\n  UseSpecial = TRUE\n  Emit = TRUE\nINIT Init\nNEXT Load\nINVARIANT EmitCase\nCHECK_DEADLOCK FALSE\n" % GRID_Q)
     r = tlc.run_tlc("Progress", c3, workers=1, timeout=900)
     cases = r["cases"]
     if len(cases) < 1000:
@@ -253,17 +379,39 @@ def run(tier):
     from ..realenv import FL
     check_weights(chk, cases, FL)
     if thorough:
-        c3b = _cfg(os.path.join(gen, "Progress_emit_many.cfg"), "CONSTANTS\n  MaxStages = 8\n  GridPos = {0, 1250, 10000}\n  GridNeg = {}\n  Emit = TRUE\nINIT Init\nNEXT Load\nINVARIANT EmitCase\nCHECK_DEADLOCK FALSE\n")
+        c3b = _cfg(os.path.join(gen, "Progress_emit_many.cfg"), "CONSTANTS\n  MinStages = 1\n  MaxStages = 8\n  GridPos = {0, 1250, 10000}\n  GridNeg = {}\n  UseSpecial = TRUE\n  Emit = TRUE\nINIT Init\nNEXT Load\nINVARIANT EmitCase\nCHECK_DEADLOCK FALSE\n")
         r = tlc.run_tlc("Progress", c3b, workers=1, timeout=900)
         check_weights(chk, r["cases"], FL)
     # 3. progress, spec -> code
     g4 = "GridPos = {0, 2500, 5000, 7500, 10000}\n  GridNeg = {}" if not thorough else "GridPos = {0, 2500, 3333, 3334, 5000, 7500, 10000}\n  GridNeg = {}"
-    c4 = _cfg(os.path.join(gen, "Progress_states_%s.cfg" % tier), "CONSTANTS\n  MaxStages = %d\n  %s\n  Emit = TRUE\nSPECIFICATION Spec\nINVARIANT EmitState\nCHECK_DEADLOCK FALSE\n" % (2 if not thorough else 3, g4))
+    c4 = _cfg(os.path.join(gen, "Progress_states_%s.cfg" % tier), "CONSTANTS\n  MinStages = 1\n  MaxStages = %d\n  %s\n  UseSpecial = TRUE\n  Emit = TRUE\nINIT Init\nNEXT NextNoMon\nINVARIANT EmitState\nCHECK_DEADLOCK FALSE\n" % (2 if not thorough else 3, g4))
     r = tlc.run_tlc("Progress", c4, workers=1, timeout=1500)
     states = r["cases"]
     if len(states) < 100:
         raise MachineryError("TLC emitted only %d progress states" % len(states))
     check_progress(chk, states, chk.scratch)
+    # 4. many stages (stage names 'stage10' < 'stage2' lexicographically): usable weight vectors only, distinct per position
+    c5 = _cfg(os.path.join(gen, "Progress_many_%s.cfg" % tier), "CONSTANTS\n  MinStages = 11\n  MaxStages = %d\n  GridPos = {500, 1500, 4000}\n  GridNeg = {}\n  UseSpecial = FALSE\n  Emit = TRUE\n"
+              "INIT Init\nNEXT Load\nINVARIANT EmitUsable\nINVARIANT WeightsSumToOne\nINVARIANT GivenPreserved\nCHECK_DEADLOCK FALSE\n" % (12 if thorough else 11))
+    r = tlc.run_tlc("Progress", c5, workers=8, timeout=1500)
+    chk.add_tlc(r)
+    many = r["cases"]
+    if len(many) < 50:
+        raise MachineryError("TLC emitted only %d many-stage cases" % len(many))
+    check_weights(chk, many, FL)
+    import random as _random
+    rnd = _random.Random(chk.seed)
+    pick = rnd.sample(many, 10 if not thorough else 40)
+    check_progress(chk, [dict(n=c["n"], given=c["given"], w=c["expected"], st=["active"] + ["pending"] * (c["n"] - 1),
+                              prog=[0] * c["n"], total=0) for c in pick], chk.scratch)
+    # 5. CheckStatus concurrent with the controller
+    c6 = _cfg(os.path.join(gen, "Progress_reports_%s.cfg" % tier), "CONSTANTS\n  MinStages = 2\n  MaxStages = %d\n  GridPos = {%s}\n  GridNeg = {}\n  UseSpecial = TRUE\n  Emit = TRUE\n"
+              "SPECIFICATION Spec\nINVARIANT EmitReport\nINVARIANT ReportedInRange\nCHECK_DEADLOCK FALSE\n" % ((2, "2500, 7500") if not thorough else (3, "2500, 5000")))
+    r = tlc.run_tlc("Progress", c6, workers=1, timeout=1500)
+    chk.add_tlc(r)
+    if len(r["cases"]) < 500:
+        raise MachineryError("TLC emitted only %d CheckStatus reports" % len(r["cases"]))
+    check_interleavings(chk, r["cases"], chk.scratch)
     chk.cov["rule"] = ("weight cases: every assignment of the grid (ten-thousandths incl. negative, >1, truncation-sensitive values, missing, "
                        "malformed) to <=3 stages, emitted by TLC with the specified result; progress cases: every reachable state of the "
                        "Progress.tla state machine for the small grid; distinct = distinct (given) vectors / (given, state) pairs")
@@ -281,6 +429,8 @@ def replay(path):
     rp = d["replay"]
     if rp["kind"] == "weights":
         check_weights(chk, [rp["case"]], FL)
+    elif rp["kind"] == "inter":
+        print("re-run ./check C20: interleaving cases are re-derived from the specification; case:", rp)
     else:
         check_progress(chk, [rp["state"]], chk.scratch)
     return chk.finish()
